@@ -356,7 +356,9 @@ func check(p *propCfg, tier string) int {
 				crashes = append(crashes, int(binary.LittleEndian.Uint64(b)))
 			}
 			if ee, ok := exits[w].err.(*exec.ExitError); ok && ee.ExitCode() == 2 && strings.Contains(exits[w].stderr, "HARNESS-TROUBLE") {
-				troubles = append(troubles, fmt.Sprintf("worker %d: %s", w, firstLines(exits[w].stderr, 40)))
+				full := filepath.Join(outDir, fmt.Sprintf("trouble.%d.txt", w))
+				os.WriteFile(full, []byte(exits[w].stderr), 0o644)
+				troubles = append(troubles, fmt.Sprintf("worker %d (full output in %s): %s", w, full, firstLines(exits[w].stderr, 40)))
 				crashes = crashes[:max(0, len(crashes)-1)]
 			}
 			continue
